@@ -32,6 +32,71 @@ def ascii_set_bits(hexmem):
     return out
 
 
+def escaper_table(ctx, F, c, name, body, req):
+    """The escaping function of UriBuilder evaluated (decision-table interpreter; strings, iterators and the byte buffer
+    concrete, `utf8_percent_encode` modelled by its definition over the compiler-evaluated AsciiSet it is given) on probe
+    values: every ASCII character alone and between two letters, non-ASCII text, the empty string, a mix of structural
+    characters.  What it appends must (a) percent-decode to the value and (b) contain none of the bytes that must be encoded
+    (spec/uri_required.json) nor any non-ASCII byte.  -> True / False (recorded) or None when a probe leaves the fragment."""
+    from .. import minterp
+    vi = [k for k in range(1, body.argc + 1) if tystr(strip_refs(body.local_ty(k))) == "str"]
+    if len(vi) != 1:
+        return None
+    probes = ["", "plain-Value_1.0~", "a b", "a/b?c#d&e=f%g+h", "\u00e9", "x\u00e9y", "\U0001f600", "%41", "a%2Fb", "..", "/"]
+    for k in range(128):
+        probes += [chr(k), "a" + chr(k) + "b"]
+    bad, n = [], 0
+    for val in probes:
+        out = bytearray()
+
+        def oracle(f, argv, out=out):
+            nm, dd = f.get("name"), f.get("def", "")
+            if dd == "percent_encoding::utf8_percent_encode" and len(argv) == 2 and isinstance(argv[0], str) and isinstance(argv[1], tuple) and argv[1] and argv[1][0] == "mem":
+                bits = ascii_set_bits(argv[1][1].hex())
+                chunks, cur = [], ""
+                for byte in argv[0].encode():
+                    if byte >= 128 or byte in bits:
+                        if cur:
+                            chunks.append(cur)
+                            cur = ""
+                        chunks.append("%%%02X" % byte)
+                    else:
+                        cur += chr(byte)
+                if cur:
+                    chunks.append(cur)
+                return ("iter", minterp._It(chunks))
+            if nm in ("extend_from_slice", "put_slice", "put", "push_str") and len(argv) == 2 and ("BytesMut" in dd or "BufMut" in dd or "String" in dd or "Vec" in dd):
+                b_ = minterp._bytes_of(argv[1])
+                if b_ is None:
+                    raise minterp.Unsupported("appends a value that is not concrete")
+                out.extend(b_)
+                return ("tuple", [])
+            if nm in ("put_u8", "push") and len(argv) == 2 and isinstance(argv[1], int) and ("BytesMut" in dd or "BufMut" in dd or "Vec" in dd or "String" in dd):
+                out.extend(chr(argv[1]).encode() if "String" in dd else bytes([argv[1]]))
+                return ("tuple", [])
+            if nm in ("reserve", "reserve_exact") and ("BytesMut" in dd or "BufMut" in dd or "Vec" in dd or "String" in dd):
+                return ("tuple", [])
+            return minterp.NO_VALUE
+        I = minterp.Interp(F, c, inline=lambda d_, rid: rid.startswith("conjure_http::private::client::uri_builder::"), max_depth=4)
+        I.call_oracle = oracle
+        args = [("sym", f"a{k}") for k in range(1, body.argc + 1)]
+        args[vi[0] - 1] = val
+        try:
+            I.run(body, args)
+        except minterp.Unsupported:
+            return None
+        n += 1
+        from urllib.parse import unquote_to_bytes
+        import re as _re
+        wrong = [x for x in _re.sub(rb"%[0-9A-Fa-f]{2}", b"", bytes(out)) if x in req or x >= 128]
+        if unquote_to_bytes(bytes(out)) != val.encode():
+            bad.append(f"{val!r} is written as {bytes(out)!r}, which decodes to {unquote_to_bytes(bytes(out))!r}")
+        elif wrong:
+            bad.append(f"{val!r} is written as {bytes(out)!r}: {[chr(x) if 32 < x < 127 else hex(x) for x in wrong[:4]]} must be percent-encoded")
+    ctx.check(not bad, "R7.2", body.loc(), f"{name}|escaper-table", f"{name}: " + "; ".join(bad[:4]), instance=f"{name}: {n} probe values (every ASCII character, non-ASCII, structural mixes): output decodes to the value and contains no byte that must be encoded")
+    return not bad
+
+
 def uri_builder_methods(c):
     return {b.name: b for b in c.bodies if b.impl and not b.trait and ty_adt(b.self_ty) == UB and b.kind == "assoc_fn"}
 
@@ -158,6 +223,14 @@ def run(ctx):
     raw_pos = {}
     esc_name = next(iter(escapers), None)
     memo = {}
+    esc_table = None
+    if esc_name is not None and esc_name in methods:
+        esc_table = escaper_table(ctx, F, c, esc_name, methods[esc_name], req)
+        if esc_table is not None:
+            # decided on values: whatever reaches the buffer from the escaper's value parameter is escaped text
+            for k_ in range(2, methods[esc_name].argc + 1):
+                if tystr(strip_refs(methods[esc_name].local_ty(k_))) == "str":
+                    memo[(esc_name, k_)] = {"escaped"}
 
     def param_flows(name, k, depth=0):
         """set of {'raw','escaped'} describing how parameter k of method `name` reaches the buffer"""
@@ -215,6 +288,8 @@ def run(ctx):
                 elif base[0] in ("local",):
                     kinds.add("local")
             params = {int(x[6:]) for x in kinds if x.startswith("param#")}
+            if name in escapers and esc_table is not None:
+                continue
             if name in escapers:
                 ok = any(x == "call:utf8_percent_encode" for x in kinds)
                 ctx.check(ok, "R7.2", b.loc(t["ln"]), f"{name}|writes-chunks", f"{name}: writes {sorted(kinds)}; the escaper must write only the chunks produced by utf8_percent_encode", instance=f"{name}: writes escaped chunks")
@@ -285,7 +360,10 @@ def run(ctx):
     pp = [b for b in c.bodies if b.name == "path_param" and b.id.startswith("conjure_http::private::server::")]
     if len(pp) == 1:
         b = pp[0]
-        fam = [b] + c.closures_of(b)
+        # (the work may sit in a sibling function of the module that path_param forwards to)
+        eb_ = inline.expand(c, b, depth=2, pred=lambda cb: cb.id.startswith("conjure_http::private::server::") and cb.kind == "fn")
+        fam = [eb_] + c.closures_of(b) + [y for i_ in getattr(eb_, "inlined", []) if c.body(i_) is not None for y in c.closures_of(c.body(i_))]
+        b = eb_
         split = [t for x in fam for _, t in x.calls() if t["call"]["name"] == "split" and "str" in t["call"]["def"]]
         sc = dt.resolve_const(b, split[0]["args"][1]) if split else None
         PDS = "percent_encoding::percent_decode_str"
@@ -328,7 +406,8 @@ def run(ctx):
         ctx.violation("R7.5", "conjure_http", "anchor|path_param", "path_param not found")
     pq = [b for b in c.bodies if b.name == "parse_query_params" and b.id.startswith("conjure_http::private::server::")]
     if len(pq) == 1:
-        fu = [t for x in [pq[0]] + c.closures_of(pq[0]) for _, t in x.calls() if t["call"]["def"].startswith("form_urlencoded::parse")]
+        epq_ = inline.expand(c, pq[0], depth=2, pred=lambda cb: cb.id.startswith("conjure_http::private::server::") and cb.kind == "fn")
+        fu = [t for x in [epq_] + c.closures_of(pq[0]) + [y for i_ in getattr(epq_, "inlined", []) if c.body(i_) is not None for y in c.closures_of(c.body(i_))] for _, t in x.calls() if t["call"]["def"].startswith("form_urlencoded::parse")]
         ctx.check(len(fu) == 1, "R7.5", pq[0].loc(), "parse_query_params|pairing", "parse_query_params must decode the query with form_urlencoded::parse", instance="parse_query_params: form_urlencoded::parse")
     else:
         ctx.violation("R7.5", "conjure_http", "anchor|parse_query_params", "parse_query_params not found")
